@@ -986,7 +986,7 @@ def relation(cond, truth):
         return ('ne', a, b)
     if isinstance(c, tuple) and c[0] == 'call' and len(c) == 4:
         nm = c[1]
-        m = re.search(r'PartialEq(<.*>)?>?::(eq|ne)$', nm) or re.search(r'^core::(str::traits|slice::cmp|array::equality|option|cmp::impls)::(eq|ne)$', nm)
+        m = re.search(r'PartialEq(<.*>)?>?::(eq|ne)$', nm) or re.search(r'^(?:core|std)::(str::traits|slice::cmp|array::equality|option|cmp::impls)::(eq|ne)$', nm)
         if m:
             eq = (m.group(2) == 'eq') == truth
             return ('eq' if eq else 'ne', c[2], c[3])
